@@ -8,6 +8,7 @@ import (
 	"fmt"
 	"os"
 	"path/filepath"
+	"strings"
 
 	"github.com/celestiaorg/celestia-node/share/eds"
 	"github.com/celestiaorg/celestia-node/share/shwap"
@@ -21,7 +22,7 @@ const (
 
 // infra reports a harness-side failure (cannot create a file etc.): never a property verdict.
 func (c *c05Ctx) infra(format string, a ...any) {
-	c.rep.Infra(fmt.Sprintf("square %s order %s: ", c.lay, c.order) + fmt.Sprintf(format, a...))
+	c.rep.Infra(fmt.Sprintf("square %s order %s: ", c.lay, c.order) + c05ASCII(fmt.Sprintf(format, a...)))
 }
 
 // twoPasses opens one instance and runs the operation list cold and warm on it.
@@ -201,7 +202,12 @@ func (c *c05Ctx) storeLevel(dir string) {
 	cachedByHeight := func(s *CachedStore, h uint64) func() (eds.AccessorStreamer, error) {
 		return func() (eds.AccessorStreamer, error) { return s.GetByHeight(c.ctx, h) }
 	}
-	rep := func(name string) *c05Rep { return &c05Rep{name: "store:" + name, class: "store:" + name, validated: true} }
+	// signature class of a store representation: the state of the store (fresh-put, reopen-odsq4, q4-pruned, ...),
+	// not the access path
+	rep := func(name string) *c05Rep {
+		state, _, _ := strings.Cut(name, "/")
+		return &c05Rep{name: "store:" + name, class: "store:" + state, validated: true}
+	}
 
 	// --- A: put with parity quadrant, read while recent (in memory), through the Getter, by hash
 	stA, err := NewStore(DefaultParameters(), dirA)
